@@ -92,9 +92,15 @@ pub fn log_entry<R: Reader<Offset = usize>>(ctx: &mut Ctx<'_>, what: &str, e: &D
     }
 }
 
-fn walk_tree<R: Reader<Offset = usize>>(ctx: &mut Ctx<'_>, node: EntriesTreeNode<'_, '_, R>, depth: usize, budget: &mut u64) {
+/// `skip` != 0: the children of some nodes (chosen by entry offset) are not visited, so the
+/// next sibling is reached through the tree's own skipping (DW_AT_sibling fast path or scan).
+fn walk_tree<R: Reader<Offset = usize>>(ctx: &mut Ctx<'_>, node: EntriesTreeNode<'_, '_, R>, depth: usize, budget: &mut u64, skip: u64) {
     log_entry(ctx, "tree", node.entry(), false);
     if depth > 150 {
+        return;
+    }
+    if skip != 0 && depth > 0 && crate::rng::mix(skip, node.entry().offset().0 as u64, 7) & 1 == 1 {
+        ev!(ctx, "skip children");
         return;
     }
     let mut children = node.children();
@@ -111,10 +117,24 @@ fn walk_tree<R: Reader<Offset = usize>>(ctx: &mut Ctx<'_>, node: EntriesTreeNode
         match children.next() {
             Ok(Some(child)) => {
                 ctx.item();
-                walk_tree(ctx, child, depth + 1, budget);
+                walk_tree(ctx, child, depth + 1, budget, skip);
             }
             Ok(None) => {
                 ctx.end();
+                // the iterator remembers that it is exhausted
+                match children.next() {
+                    Ok(None) => {}
+                    Ok(Some(_)) => {
+                        if ctx.mon.c01 {
+                            ctx.violate("fused", "EntriesTreeIter yielded a node after Ok(None)".into());
+                        }
+                    }
+                    Err(e) => {
+                        if ctx.mon.c01 {
+                            ctx.violate("fused", format!("EntriesTreeIter returned {} after Ok(None)", crate::ctx::err_name(&e)));
+                        }
+                    }
+                }
                 return;
             }
             Err(e) => {
@@ -449,13 +469,13 @@ pub fn info<'a, R: Reader<Offset = usize> + 'a>(
         ctx.enter("unit.entries_tree");
         match header.entries_tree(&abbrevs, None) {
             Ok(mut tree) => {
-                for _round in 0..2 {
+                for round in 0..2u64 {
                     ctx.enter("tree.root");
                     match tree.root() {
                         Ok(root) => {
                             ctx.item();
                             let mut budget = 4096u64;
-                            walk_tree(ctx, root, 0, &mut budget);
+                            walk_tree(ctx, root, 0, &mut budget, round * (sel | 1));
                         }
                         Err(e) => ctx.err(&e),
                     }
@@ -491,7 +511,7 @@ pub fn info<'a, R: Reader<Offset = usize> + 'a>(
                 match tree.root() {
                     Ok(root) => {
                         let mut budget = 64u64;
-                        walk_tree(ctx, root, 140, &mut budget);
+                        walk_tree(ctx, root, 140, &mut budget, 0);
                     }
                     Err(e) => ctx.err(&e),
                 }
